@@ -339,7 +339,7 @@ impl<'a> GeneratorState<'a> {
     fn generate_deref(&mut self, expr: &Expr, pos: usize) -> Result<ExprType, Error> {
         match expr {
             Expr::Identifier(var, sub) => {
-                let v = self.compiler_state.get_variable(var);
+                let v = self.compiler_state.get_variable_or_error(var, pos)?;
                 if v.var_type == VariableType::CharPtr {
                     let sub_output = self.generate_expr(sub, pos, false, false)?;
                     match sub_output {
@@ -386,7 +386,7 @@ impl<'a> GeneratorState<'a> {
     fn generate_addr(&mut self, expr: &Expr, pos: usize) -> Result<ExprType, Error> {
         match expr {
             Expr::Identifier(var, sub) => {
-                let v = self.compiler_state.get_variable(var);
+                let v = self.compiler_state.get_variable_or_error(var, pos)?;
                 if v.var_type == VariableType::Char {
                     let sub_output = self.generate_expr(sub, pos, false, false)?;
                     match sub_output {
@@ -423,7 +423,7 @@ impl<'a> GeneratorState<'a> {
                 }
             }
             Expr::Identifier(var, _) => {
-                let v = self.compiler_state.get_variable(var);
+                let v = self.compiler_state.get_variable_or_error(var, pos)?;
                 match v.var_type {
                     VariableType::CharPtr => {
                         if v.var_const {
@@ -712,7 +712,7 @@ impl<'a> GeneratorState<'a> {
                     }
                 }
                 variable => {
-                    let v = self.compiler_state.get_variable(variable);
+                    let v = self.compiler_state.get_variable_or_error(variable, pos)?;
                     let dummy = if let Expr::Nothing = **sub {
                         None
                     } else {
@@ -1075,7 +1075,7 @@ impl<'a> GeneratorState<'a> {
     fn generate_strobe_statement(&mut self, expr: &Expr, pos: usize) -> Result<(), Error> {
         match expr {
             Expr::Identifier(name, _) => {
-                let v = self.compiler_state.get_variable(name);
+                let v = self.compiler_state.get_variable_or_error(name, pos)?;
                 match v.var_type {
                     VariableType::CharPtr => {
                         // Like load() and store(), a strobe must reach the hardware whatever the optimizer believes
